@@ -117,6 +117,9 @@ V("O13.1", ["C13", "C05"], "c13_arrays", expect_verified=4, functions=["index_se
 for _n in range(4):
   K("O13.1k.%d" % _n, ["C13", "C05"], "vm", "c13_array_bounded_%d" % _n, level="bounded", bound="arrays of length %d, every index in the integer range, symbolic immediate elements" % _n, needs_fmt_stub=True,
   functions=["index_get_array", "index_set_array"], desc="bounded twin of O13.1 on the real functions (independent of their syntactic form): element norm(i) read / replaced iff in range, IndexError otherwise, no other element changes")
+for _n in (4, 5):
+  K("O13.1k.%d" % _n, ["C13", "C05"], "vm", "c13_array_bounded_%d" % _n, level="bounded", tier="thorough", bound="arrays of length %d, every index in the integer range, symbolic immediate elements" % _n, needs_fmt_stub=True,
+  functions=["index_get_array", "index_set_array"], desc="thorough tier: the bounded twin of O13.1 at a larger length")
 K("O13.cast", ["C13"], "vm", "c13_cast_contracts", functions=["index_set_array", "index_get_array"],
   desc="the `as usize` / `as isize` casts replaced by helpers in unit c13_arrays (R3) have the helper contract, for all values")
 K("O13.3a", ["C13", "C05"], "vm", "c13_index_get_dispatch", needs_fmt_stub=True, functions=["index_get"],
@@ -182,11 +185,16 @@ V("O02.ind", ["C02", "C11", "C09", "C10", "C12"], "c02_dispatch", expect_verifie
 V("O02.blocks", ["C02", "C09", "C12", "C11", "C05"], "c02_blocks", expect_verified=2,
   functions=["Compiler::compile_block_statement", "Compiler::compile_expression arm Expr::Function"],
   desc="blocks: an empty block is one Null; every statement of a non-empty block is compiled in order, back to back, ONE SCOPE DEEPER, depth restored (names cease to exist at block end). Function definitions: jumped over; the body ALWAYS ends in ReturnValue / Return (control cannot run off its end); entry point = first byte of the body; slot count from the symbol table; body compiled in a fresh function context with parameters declared first and no enclosing loop visible (both restored); a named function is declared before its body and stored in its slot")
+K("O09.4k", ["C09", "C02"], "compiler", "c09_block_scope_twin", level="bounded", bound="blocks of 1..=3 statements (expression / stop / antwoord shapes)", needs_fmt_stub=False,
+  functions=["Compiler::compile_block_statement"], desc="bounded twin of the block contract on the real function whatever its syntactic form: each statement exactly once, in order, one scope deeper, depth restored (added after seeded change C09-3 turned the Verus unit undecided)")
 K("O12.2k", ["C12", "C02"], "vm", "c12_call_twin", level="bounded", bound="1 argument, callee with 0..=3 slots, two caller slots", needs_fmt_stub=True,
   functions=["VM::run arm Call (compiled verbatim as a method, registry.TWINS)"], desc="bounded twin of the Call contract on the real arm text whatever its syntactic form")
 for _n in range(3):
     K("O12.3k.%d" % _n, ["C12", "C02"], "vm", "c12_return_twin_%d" % _n, level="bounded", bound="caller stack of 2 slots, callee activation of %d slots" % _n, needs_fmt_stub=True,
       functions=["VM::run_code arm ReturnValue", "VM::run_code arm Return"], desc="bounded twin of the Return contracts on the real arm text")
+for _n in (3, 4):
+    K("O12.3k.%d" % _n, ["C12", "C02"], "vm", "c12_return_twin_%d" % _n, level="bounded", tier="thorough", bound="caller stack of 2 slots, callee activation of %d slots" % _n, needs_fmt_stub=True,
+      functions=["VM::run_code arm ReturnValue", "VM::run_code arm Return"], desc="thorough tier: bounded twin of the Return contracts at a larger activation")
 V("O02.arms", ["C02", "C10", "C11", "C06", "C14", "C13", "C05", "C03"], "c02_arms", expect_verified=42,
   functions=["VM::run arms: Const SetGlobal GetGlobal SetLocal GetLocal Jump JumpIfFalse Pop Null True False Add..Or (13) Not Negate CallBuiltin *LocalConst (11) Array IndexGet IndexSet Halt"],
   desc="42 arms, each: operands read from inside the code, stack delta stated over the whole old stack, operand ORDER of every binary / fused operator (left = lower slot / local, right = top / constant), jump targets, type errors of Not/Negate/JumpIfFalse, GetGlobal of an unset slot is a ReferenceError, Halt untraces the result")
@@ -200,6 +208,8 @@ V("O10.3", ["C10", "C06"], "c10_fused", expect_verified=5,
 K("O10.1", ["C10"], "compiler", "c10_add_constant", level="bounded", bound="constant pool of 0..=2 integer entries, symbolic new integer constant", functions=["Compiler::add_constant"],
   desc="returned slot holds the same type and content; earlier slots unchanged; index in range")
 
+K("O10.1t", ["C10"], "compiler", "c10_add_constant_pool3", level="bounded", tier="thorough", bound="constant pool of 0..=3 immediates (null, bools, ints, function descriptors), symbolic new immediate", functions=["Compiler::add_constant"],
+  desc="thorough tier: O10.1 on a larger pool over all immediates; an equal entry is re-used, a new one appended at the end")
 K("O10.1f", ["C10"], "compiler", "c10_add_constant_float", level="bounded", bound="pool of one float constant; all pairs of non-NaN f64 bit patterns", functions=["Compiler::add_constant"],
   desc="a float literal lands in a slot whose value is IEEE-equal to it; the existing slot is unchanged (added after seeded change C10-3 was missed)")
 
@@ -226,6 +236,11 @@ K("O09.len", ["C09", "C05"], "symbols", "c09_total_len", level="bounded", bound=
   desc="total_len is the sum of the scope lengths (real iterator fold): the contract under which Context::define is verified")
 K("O09.res", ["C09"], "symbols", "c09_resolve_two_scopes", level="bounded", bound="two open scopes of 0..=2 names each over {a, b}", functions=["Context::resolve", "Context::total_len"],
   desc="innermost scope first, last declaration of the name within a scope, slot == number of names declared before it in the context; absent name -> None")
+for _n in (1, 2, 3):
+  K("O09.1k.%d" % _n, ["C09"], "symbols", "c09_table_resolve_twin_%d" % _n, level="bounded", bound="%d context(s) (global, enclosing function, current function), one scope of 0..=1 names over {a, b} each" % _n, functions=["SymbolTable::resolve", "Context::resolve"],
+    desc="bounded twin of the table-level lookup contract on the real code whatever its syntactic form: current context, then the global one, never an enclosing function's (added after seeded change C09-2 turned the Verus unit undecided)")
+K("O09.res3", ["C09"], "symbols", "c09_resolve_three_scopes", level="bounded", tier="thorough", bound="three open scopes of 0..=2 names each over {a, b}", functions=["Context::resolve", "Context::total_len"], timeout=1500,
+  desc="thorough tier: O09.res for three scopes")
 K("O05.sym", ["C05", "C09"], "symbols", "c05_define_total", functions=["Context::define"],
   desc="declaring a name is total for EVERY number of names already in the context (symbolic count in the enclosing scopes): slot == count as u16, or an error value and an unchanged context - never a panic")
 K("O09.2", ["C09"], "lib", "c09_eval_order", functions=["eval"],
